@@ -344,6 +344,12 @@ class PVLParser(object):
                     try:
                         self.parse_end_aggregation(begin, block_name, tokens)
                         break
+                    except StopIteration:
+                        raise ParseError(
+                            "Ran out of tokens before the End-Aggregation-"
+                            f'Statement of "{begin} = {block_name}" was '
+                            "complete."
+                        )
                     except LexerError:
                         raise
                     except ValueError as ve:
@@ -417,7 +423,12 @@ class PVLParser(object):
                 ValueError, f'Expecting an equals sign after "{begin}" '
             )
 
-        block_name = next(tokens)
+        try:
+            block_name = next(tokens)
+        except StopIteration:
+            raise ParseError(
+                f'Ran out of tokens after "{begin} =", expecting a Block-Name.'
+            )
         if not block_name.is_parameter_name():
             tokens.throw(
                 ValueError,
